@@ -12,17 +12,27 @@ pub fn now() -> i64 {
     dt.timestamp_millis()
 }
 
+const DAY_MS: i64 = 86_400_000;
+
 //returns the date without time
 pub fn date(date_time: i64) -> i64 {
-    let date = DateTime::from_timestamp_millis(date_time).unwrap();
-    let ds: NaiveDateTime = date.date_naive().and_hms_opt(0, 0, 0).unwrap();
-    ds.and_utc().timestamp_millis()
+    match DateTime::from_timestamp_millis(date_time) {
+        Some(date) => {
+            let ds: NaiveDateTime = date.date_naive().and_hms_opt(0, 0, 0).unwrap();
+            ds.and_utc().timestamp_millis()
+        }
+        //out of the range of the calendar: same computation on the raw value
+        None => date_time.saturating_sub(date_time.rem_euclid(DAY_MS)),
+    }
 }
 
 //returns the next day without time
 pub fn date_next_day(date_time: i64) -> i64 {
-    let date = DateTime::from_timestamp_millis(date_time).unwrap();
-    let date = date + Duration::days(1);
-    let ds: NaiveDateTime = date.date_naive().and_hms_opt(0, 0, 0).unwrap();
-    ds.and_utc().timestamp_millis()
+    match DateTime::from_timestamp_millis(date_time).and_then(|d| d.checked_add_signed(Duration::days(1))) {
+        Some(date) => {
+            let ds: NaiveDateTime = date.date_naive().and_hms_opt(0, 0, 0).unwrap();
+            ds.and_utc().timestamp_millis()
+        }
+        None => date(date_time).saturating_add(DAY_MS),
+    }
 }
